@@ -258,3 +258,26 @@ Theorem c04_default_recovery_identity_refuted :
   recover_default 7 [(100, 1, 7); (105, 2, 7)] = Some 2.
 Proof. exact default_recovery_child. Qed.
 Print Assumptions c04_default_recovery_identity_refuted.
+
+(* ---------------------------------------------------------------- cut points through the caches *)
+(* compaction_cut_points_v1 on a store whose ordinal index is the projection (count and ordinal look-ups
+   answered from it: c04_ord_projection_transparent), with the per-cut-point checkpoint look-up through
+   the `.comp` sidecar and all its fallbacks: outside K1 and K2 it is the truth answer, for all scan
+   bounds, strides and limits. *)
+Theorem c04_cut_points_fast_eq_truth_partial :
+  forall (me mb : N) (comp full : sfile) (l : log) (stride limit : N),
+  valid_log l = true -> log_lens_pos l = true -> FullFaithful l full -> CompFaithful l comp full ->
+  cut_points_fast me mb comp full l stride limit = cut_points_truth l stride limit.
+Proof. exact cut_points_fast_eq_truth. Qed.
+Print Assumptions c04_cut_points_fast_eq_truth_partial.
+
+(* the probe of DESIGN §0 (S4) in the model: only the newest checkpoint left in the sidecar *)
+Theorem c04_K2_changes_cut_points :
+  snd (cut_points_fast 100 1000 (Some [LGood (wck 4 1)]) (Some (project_full wlog3)) wlog3 1 2)
+    = [ {| cp_ordinal := 2; cp_to_seq := 2; cp_already := false; cp_latest := None |};
+        {| cp_ordinal := 1; cp_to_seq := 1; cp_already := true; cp_latest := Some 4 |} ]
+  /\ snd (cut_points_truth wlog3 1 2)
+    = [ {| cp_ordinal := 2; cp_to_seq := 2; cp_already := true; cp_latest := Some 3 |};
+        {| cp_ordinal := 1; cp_to_seq := 1; cp_already := true; cp_latest := Some 4 |} ].
+Proof. exact K2_changes_cut_points. Qed.
+Print Assumptions c04_K2_changes_cut_points.
